@@ -33,11 +33,19 @@ def exact(a):
     return out
 
 
+COMPUTER = {}        # id(obj) -> the bounds computer the object was constructed with
+NOARG = object()
+
+
 def snap(g):
-    v = g._values
-    k = [int(x) for x in v[:, 0]]
-    lo = exact(v[:, 1])
-    up = exact(v[:, 2])
+    # through the public accessors only (private storage may be refactored); nested calls are not recorded
+    DEPTH[0] += 1
+    try:
+        k = [int(bool(x)) for x in g.are_values_known()]
+        lo = exact(g.get_lower_bounds())
+        up = exact(g.get_upper_bounds())
+    finally:
+        DEPTH[0] -= 1
     z = [0] * len(k)
     return {"k": k, "lo": lo, "up": up, "gv_ok": z, "gv": z, "gkv_ok": z, "gkv": z, "gkvs_ok": z, "gkvs": z, "gvs_all": 0, "full": 0,
             "sk": k, "slo": lo, "sup": up}
@@ -50,7 +58,7 @@ def computer_name(fn):
         return "compute_sac", 0
     if isinstance(fn, partial) and fn.func is B.compute_bounds_superadditive_monotone_approx_cached:
         return "compute_sam", int(fn.keywords.get("repetitions", 0))
-    return ("compute_none", 0) if getattr(fn, "__name__", "") in ("_none_bounds", "_none_bounds_computer") else (None, 0)
+    return ("compute_none", 0) if fn is NOARG or getattr(fn, "__name__", "") in ("_none_bounds", "_none_bounds_computer") else (None, 0)
 
 
 def start(obj):
@@ -115,6 +123,7 @@ def install():
             orig_init(self, *a, **kw)
         finally:
             DEPTH[0] -= 1
+        COMPUTER[id(self)] = a[1] if len(a) > 1 else kw.get("bounds_computer", NOARG)
         if DEPTH[0] == 0:
             start(self)
     G.__init__ = init
@@ -165,7 +174,7 @@ def install():
          if not s.is_value_known(coalition) else TRACES.get(id(s), {}).__setitem__("dead", 1))
 
     def d_compute(s, o):
-        op, r = computer_name(s._bounds_computer)
+        op, r = computer_name(COMPUTER.get(id(s)))
         if op is None or o != "ok":
             t = TRACES.get(id(s))
             if t:
